@@ -479,11 +479,11 @@ def IsTmp : Loc → Prop
   | _ => False
 
 /-- the variable a storage expression is rooted at (`XExpr.isStorage`) -/
-def rootVar : XExpr → Option Nat
+def rootVarX : XExpr → Option Nat
   | .var i => some i
-  | .item r _ => rootVar r
-  | .setItem r _ _ => rootVar r
-  | .mem _ r _ => rootVar r
+  | .item r _ => rootVarX r
+  | .setItem r _ _ => rootVarX r
+  | .mem _ r _ => rootVarX r
   | _ => none
 
 def RootFrom (P : Loc → Prop) (m : XM XLoc) : Prop := ∀ s x s', m s = .ok (x, s') → P x.root
